@@ -143,6 +143,7 @@ int cif_pktitr_next_packet(
         sqlite3_stmt *stmt = iterator->stmt;
         int current_row = sqlite3_column_int(stmt, 0);
         cif_packet_tp *temp_packet;
+        struct entry_s *pending = NULL;
         int result;
     
         assert (iterator->item_names != NULL);
@@ -252,6 +253,8 @@ int cif_pktitr_next_packet(
                             FAIL(soft, CIF_ARGUMENT_ERROR);
                         } else {
                             HASH_DEL(temp_packet->map.head, entry);
+                            /* until it is added to the result packet, the entry belongs to neither packet */
+                            pending = entry;
                             name_len = (size_t) U_BYTES(entry->key);
     
                             /* convert the entry to standalone, for compatibility with the packet */
@@ -260,6 +263,7 @@ int cif_pktitr_next_packet(
                             if (entry->key != NULL) {
                                 /* add the entry to the packet */
                                 HASH_ADD_KEYPTR(hh, (*packet)->map.head, entry->key, name_len, entry);
+                                pending = NULL;
                             } else {
                                 FAIL(soft, CIF_MEMORY_ERROR);
                             }
@@ -274,6 +278,10 @@ int cif_pktitr_next_packet(
             }
     
             FAILURE_HANDLER(soft):
+            if (pending != NULL) {
+                /* an entry removed from the temporary packet that could not be added to the result packet */
+                cif_map_entry_free_internal(pending, &(temp_packet->map));
+            }
             cif_packet_free(temp_packet);
         }
     
